@@ -89,8 +89,17 @@ def cache_helpers(G):
                 if x.get('kind') == 'VarDecl' and 'init' in x and mentions_cache(G, u, kids(x)[-1], ids | derived):
                     derived.add(x['id'])
             rets = [kids(x)[0] for x in walk(f) if x.get('kind') == 'ReturnStmt' and kids(x)]
+            # pointer parameters through which only cache-derived values are handed back
+            from ..frontend import params_of as _po
+            out_cache = set()
+            for pi_, p_ in enumerate(_po(f)):
+                ws = [y for y in walk(f) if y.get('kind') == 'BinaryOperator' and y.get('opcode') == '=' and
+                      peel(kids(y)[0]).get('kind') == 'UnaryOperator' and peel(kids(y)[0]).get('opcode') == '*' and
+                      (peel(kids(peel(kids(y)[0]))[0]).get('referencedDecl') or {}).get('id') == p_['id']]
+                if ws and all(mentions_cache(G, u, kids(y)[1], ids | derived) for y in ws):
+                    out_cache.add(pi_)
             H[k] = dict(map=(direct[0][0] if direct else H[via[0][0]]['map']), kinds=kinds,
-                        returns_cache=any(mentions_cache(G, u, r, ids | derived) for r in rets))
+                        returns_cache=any(mentions_cache(G, u, r, ids | derived) for r in rets), out_cache=out_cache)
             changed = True
     return H
 
